@@ -153,3 +153,43 @@ Section Refinement.
           exact (xwalks_prefix succB _ _ _ _ _ W).
   Qed.
 End Refinement.
+
+(* Simulation: the same outgoing relations up to enumeration order and up to extensional equality
+   of their guards and transformers (the edges of two graphs that store the same relation objects
+   are different closures with equal behaviour) *)
+Section Simulation.
+  Context {T D St : Type}.
+
+  Definition edge_equiv (e1 e2 : edge T D St) : Prop :=
+    e_dst e1 = e_dst e2 /\ (forall d st, e_guard e1 d st = e_guard e2 d st) /\ (forall d st, e_trans e1 d st = e_trans e2 d st).
+
+  Variables succ1 succ2 : T -> res (list (edge T D St)).
+  Hypothesis Hsim : forall t es1, succ1 t = Ok es1 ->
+    exists es1' es2, Permutation es1 es1' /\ succ2 t = Ok es2 /\ Forall2 edge_equiv es1' es2.
+
+  Lemma rejects_transfer (l1 l2 : list (edge T D St)) d st :
+    Forall2 edge_equiv l1 l2 -> Forall (fun x => rejects_purely x d st) l1 -> Forall (fun x => rejects_purely x d st) l2.
+  Proof.
+    induction 1 as [|a b l1 l2 Hab Hl IH]; intro H; [constructor|]. inversion H; subst. constructor; [|apply IH; assumption].
+    unfold rejects_purely in *. destruct Hab as [_ [Hg _]]. rewrite <- Hg. assumption.
+  Qed.
+
+  Theorem xwalks_sim t d st path out : xwalks succ1 t d st path out -> xwalks succ2 t d st path out.
+  Proof.
+    induction 1 as [t d st path es Sc R | t d st path es pre e post d' st' out Sc E R G Tr W IH].
+    - destruct (Hsim t es Sc) as [es1' [es2 [P [S2 F2]]]]. eapply xw_stop; [exact S2|].
+      apply (rejects_transfer es1' es2 d st F2).
+      rewrite Forall_forall in *. intros x Hx. apply R. eapply Permutation_in; [apply Permutation_sym; exact P | exact Hx].
+    - destruct (Hsim t es Sc) as [es1' [es2 [P [S2 F2]]]]. subst es.
+      destruct (perm_split es1' pre post e d st P R G) as [pre2 [post2 [-> R2]]].
+      apply Forall2_app_inv_l in F2. destruct F2 as [a [b' [Fa [Fb ->]]]].
+      inversion Fb as [|x e2 l b Hee Fpost]; subst.
+      apply Forall_app in R2. destruct R2 as [Rp Rq].
+      destruct Hee as [Hd [Hg Ht]].
+      eapply (xw_step succ2 t d st path (a ++ e2 :: b) a e2 b d' st' out); [exact S2 | reflexivity | | | |].
+      + apply Forall_app. split; [apply (rejects_transfer pre2 a d st Fa Rp) | apply (rejects_transfer post2 b d st Fpost Rq)].
+      + rewrite <- Hg. exact G.
+      + rewrite <- Ht. exact Tr.
+      + rewrite <- Hd. exact IH.
+  Qed.
+End Simulation.
